@@ -16,6 +16,21 @@ CLAIMED = {
    note="trusted: TLC, vector transport; the epilogue byte sequence is observed through Request::close in the connection replays", ref="6 C17"),
 }
 
+CLAIMED.update({
+ "C01": dict(technique="TLA+ spec of the request parser (ReqParser.tla) model-checked by TLC over wire menus x all call partitions; edge-cover replay on the real parser; trace validation of seeded large-size drivers (Trace_ReqParser)",
+   text="ReqParser.tla transcribes every arm of the resumable parser over an abstract wire (offsets and token structure, never byte arrays); TLC explores every partition of each menu wire into parse(n) calls and checks PrefixDetermined (state = canonical byte-by-byte parse) and OutcomeExact against the declarative reference RefReq/RefEnv (last value wins). Every explored transition is executed on the real parser and compared (request triple, environment by three spellings, done flag); executions on realistic sizes (127/128/65535/70000-byte pairs, buffers 24..70016, 1-byte to buffer-filling reads) are recorded and must be behaviours of the spec.",
+   note="trusted: TLC, the wire encoder/lexer (harness/src/wire.rs, ~300 lines), std's lossy UTF-8 + ASCII upper-casing as the name normaliser; ids and spellings sampled", ref="6 C01"),
+ "C03": dict(technique="TLC on hostile wire menus with parse(0)/post-final calls and sticky-error action properties; replay on the code; trace validation of random and mutated byte strings under >=3 chunkings with all fields bound; panics caught",
+   text="The hostile menu (bad versions, malformed BeginRequest, aborts, truncation at every offset) is explored exhaustively per call partition; chunking-invariance is the invariant PrefixDetermined, stickiness an action property. On the code, random and structurally mutated byte strings are run under at least three chunkings with catch_unwind, debug assertions and overflow checks; the lexer describes each byte string so that TLC validates every recorded call, and outcomes are additionally compared across chunkings.",
+   note="request-parser half; the stream-parser half is added with StreamParser.tla. Announced lengths clamped to 10^9 in the model (32-bit TLC integers)", ref="6 C03"),
+ "C04": dict(technique="TLC invariant RepliesExact (all replies so far = reference list by due offset) on reply menus x all partitions; replies compared as bytes in replays and as decoded descriptors in validated traces",
+   text="Replies are first-class in the spec (kind, id, status / variable set). RepliesExact states that after any prefix the emitted replies are exactly those the reference prescribes, in order; TLC checks it for GetValues bodies split at every offset, unknown types, foreign/duplicate BeginRequest, unknown role and abort during Params at every record gap. The code's output bytes are compared with the encoder's for every explored transition, and decoded again in recorded traces.",
+   note="request-parser half (stream parser replies are added with StreamParser.tla); interpretation of unknown-type ids and empty GetValues bodies as stated in DESIGN.md", ref="6 C04"),
+ "C06": dict(technique="TLC invariants BoundSuffices / NeverFullUnlessStuck on the bound menu for B in {24,32,40}; edge-cover replay (input space offered, StuckOnInput); AlignedBuf checked in TLC and swept on the code",
+   text="For each B the critical pair (name+value B-14..B-1, both encodings) is placed behind a small pair and cut at every structurally distinct offset; TLC proves on the model that no StuckOnInput occurs up to B-13 and that an unfinished parser always offers space, and every transition is replayed on the code comparing 'offers space', the stuck error and that each modelled call is accepted. The size rule is a TLA+ operator checked for 0..4100 and swept on the code for every n<=70000 and around powers of two.",
+   note="tight limit beyond B-13 is explored (menu goes to B-1) but only reported", ref="6 C06"),
+})
+
 NOT_YET = {}
 
 def main():
